@@ -11,7 +11,13 @@ honour the common interface:
     (size_bytes where the class reports one; calling get_bytes() again after reading gives position 0 again);
   * get_dim() == (len(get_table()), max row length) and is (0, 0) for an empty table;
   * get_metadata() of the result reports filename / file_extension / folder derived from the path argument
-    as pathlib defines them (all None when no path was given).
+    as pathlib defines them (all None when no path was given);
+  * SEVERAL images at once (`Walk.collected`): get_bytes() of every distinct image object reachable from the result
+    is obtained FIRST and the streams are read afterwards (forwards, backwards, and after one of them was closed):
+    every stream is an own object, found at position 0, delivering size_bytes bytes — whatever was done with the
+    streams of the OTHER images in between;
+  * the metadata objects (result, unit, image): a field declared `str` holds a `str` (an empty-but-present element
+    of the file is the empty string, not None).
 """
 from __future__ import annotations
 
@@ -55,6 +61,7 @@ class Walk:
         self.path = path
         self.out = []
         self.n_calls = 0
+        self.images = {}      # id(image object) -> (where, image): every distinct image object met during the walk
 
     def add(self, key, what):
         if len(self.out) < 50 and not any(k == key for k, _ in self.out):
@@ -96,6 +103,7 @@ class Walk:
     # ---- images
     def image(self, where, im):
         cls = type(im).__name__
+        self.images.setdefault(id(im), (where, im))
         for nm in ("get_content_type", "get_caption", "get_description"):
             ok, v = self.call(where, im, nm)
             if ok:
@@ -111,6 +119,7 @@ class Walk:
             ct = getattr(md, "content_type", "")
             if isinstance(ct, str) and not utf8_ok(ct):
                 self.add(f"not-utf8:{cls}.get_metadata.content_type", f"{where} content_type not UTF-8")
+            self.declared_str(where, cls, md)
         ok, fl = self.call(where, im, "get_bytes")
         if ok:
             try:
@@ -149,6 +158,7 @@ class Walk:
             num = getattr(md, "unit_number", None)
             if not (isinstance(num, int) and not isinstance(num, bool) and num >= 1):
                 self.add(f"unit-number:{cls}", f"{where}.get_metadata().unit_number = {num!r} (not a positive int)")
+            self.declared_str(where, cls, md)
         ok, ims = self.call(where, u, "get_images")
         if ok:
             if not isinstance(ims, list):
@@ -179,6 +189,7 @@ class Walk:
                 val = getattr(md, f.name, None)
                 if isinstance(val, str) and not utf8_ok(val):
                     self.add(f"not-utf8:{cls}.get_metadata.{f.name}", f"{where}.get_metadata().{f.name} is not encodable as UTF-8 ({_bad_char(val)})")
+            self.declared_str(where, cls, md)
         for acc, fn in (("iterate_units", self.unit), ("iterate_images", self.image), ("iterate_tables", self.table)):
             ok, it = self.call(where, r, acc)
             if not ok:
@@ -192,7 +203,83 @@ class Walk:
                         break
             except Exception as e:  # noqa: BLE001
                 self.add(f"raises:{cls}.{acc}", f"{where}.{acc}() raised while iterating: {type(e).__name__}: {str(e)[:120]}")
+        self.collected()
         return self.out
+
+    # ---- metadata objects: declared `str` fields hold `str`
+    def declared_str(self, where, cls, md):
+        if not dataclasses.is_dataclass(md) or isinstance(md, type):
+            return
+        for f in dataclasses.fields(md):
+            if f.type in ("str", str):
+                val = getattr(md, f.name, "")
+                if not isinstance(val, str):
+                    self.add(f"not-str:{cls}.get_metadata.{f.name}",
+                             f"{where}.get_metadata().{f.name} (declared str) is {val!r} ({type(val).__name__})")
+
+    # ---- several images at once
+    def _collect(self, items):
+        """get_bytes() of every image, nothing read yet: [(where, image, stream | None)]"""
+        got = []
+        for where, im in items:
+            ok, fl = self.call(where, im, "get_bytes")
+            got.append((where, im, fl if ok and hasattr(fl, "read") and hasattr(fl, "tell") else None))
+        return got
+
+    def _read_collected(self, got, order, how):
+        for k in order:
+            where, im, fl = got[k]
+            if fl is None:
+                continue
+            cls = type(im).__name__
+            try:
+                pos = fl.tell()
+                data = fl.read()
+            except Exception as e:  # noqa: BLE001
+                self.add(f"bytes-collected-raises:{cls}", f"{where}: the stream get_bytes() returned raised {type(e).__name__}: {str(e)[:80]} when read {how}")
+                continue
+            if pos != 0:
+                self.add(f"bytes-collected-pos:{cls}", f"{where}: the stream get_bytes() returned is at position {pos}, not 0, when read {how}")
+            if hasattr(im, "size_bytes") and isinstance(data, bytes) and im.size_bytes != len(data):
+                self.add(f"bytes-collected-size:{cls}", f"{where}: size_bytes = {im.size_bytes!r} but the stream get_bytes() returned delivers {len(data)} bytes when read {how}")
+
+    def collected(self):
+        items = list(self.images.values())[:MAX_ITEMS]
+        if len(items) < 2:
+            return
+        n = len(items)
+        # (1) collect all, then read: forwards, and (collected anew) backwards
+        got = self._collect(items)
+        seen = {}
+        for where, im, fl in got:
+            if fl is None:
+                continue
+            if id(fl) in seen and seen[id(fl)][1] is not im:
+                self.add(f"bytes-shared:{type(im).__name__}", f"{where} and {seen[id(fl)][0]} (two image objects) return the very same stream object from get_bytes(): "
+                                                             "reading or closing one changes the other")
+            seen.setdefault(id(fl), (where, im))
+        self._read_collected(got, range(n), "after the streams of all images had been collected")
+        got = self._collect(items)
+        self._read_collected(got, range(n - 1, -1, -1), "after the streams of all images had been collected (read in reverse order)")
+        # (2) interleaved: the stream of image k is obtained, half-read, then every other image is used
+        for k in (0, n - 1):
+            where, im, fl = self._collect([items[k]])[0]
+            if fl is None:
+                continue
+            try:
+                fl.read(1)
+            except Exception:  # noqa: BLE001
+                pass
+            others = [items[j] for j in range(n) if j != k]
+            self._read_collected(self._collect(others), range(n - 1), f"after one byte of the stream of {where} was read")
+        # (3) the consumer closes the stream of ONE image (with-statement): the other images must be unaffected
+        where, im, fl = self._collect([items[0]])[0]
+        if fl is not None:
+            try:
+                fl.close()
+            except Exception:  # noqa: BLE001
+                pass
+            self._read_collected(self._collect(items[1:]), range(n - 1), f"after the stream of {where} was closed")
 
     def path_fields(self, where, md):
         fn, ext, folder = expected_path_fields(self.path)
